@@ -342,4 +342,57 @@ def flashOn (P : Peer σ) (ld : Loader σ) (key : Nat) (image : List UInt8) (ove
       let r := internalFlash P L g image override term
       ({ ld with link := some r.1 }, r.2)
 
+/-! ### packet OBJECTS: `upload_buffer` against a link that keeps the object it was handed
+
+The radio driver puts the `CRTPPacket` object into a one-slot out-queue and its thread reads `header` / `data` later.
+`ObjLink` models that: every packet object has an identity (index into `heap`), `send` only stores the identity,
+the bytes go on the air when the slot is needed again (or at `flush`). -/
+
+structure ObjLink where
+  heap : List (List UInt8)     -- `data` of every CRTPPacket object created so far
+  slot : Option Nat            -- the object waiting in the driver's out-queue
+  air : List (List UInt8)      -- the data serialised so far, in order
+  deriving Repr, DecidableEq
+
+/-- `pk = CRTPPacket(); pk.data = d` -/
+def ObjLink.alloc (o : ObjLink) (d : List UInt8) : ObjLink × Nat :=
+  ({ o with heap := o.heap ++ [d] }, o.heap.length)
+
+/-- `pk.data = d` / `pk.data.append(b)` on the object `id` -/
+def ObjLink.setData (o : ObjLink) (id : Nat) (d : List UInt8) : ObjLink := { o with heap := o.heap.set id d }
+
+/-- the driver serialises what waits in the slot: it reads the object's data NOW -/
+def ObjLink.flush (o : ObjLink) : ObjLink :=
+  match o.slot with
+  | none => o
+  | some id => { o with slot := none, air := o.air ++ [o.heap.getD id []] }
+
+/-- `link.send_packet(pk)` -/
+def ObjLink.send (o : ObjLink) (id : Nat) : ObjLink := { o.flush with slot := some id }
+
+/-- the loop of `upload_buffer` on packet objects; `pk` = identity of the packet being filled.  Whether a new
+object is created after a packet has been sent is read from the source (`Gen.C12.uploadFreshPacket`). -/
+def uploadLoopObj (tid : Int) (page address : Nat) :
+    List UInt8 → Nat → Nat → Nat → ObjLink → ObjLink × Except PyErr Nat
+  | [], _, _, pk, o => (o, .ok pk)
+  | b :: rest, i, count, pk, o =>
+    let o := o.setData pk (o.heap.getD pk [] ++ [b])
+    let count := count + 1
+    if Gen.C12.uploadFull count then
+      let o := o.send pk
+      match loadData tid Gen.C12.uploadCmd1 page (Gen.C12.uploadNextAddr i address) with
+      | .error e => (o, .error e)
+      | .ok d =>
+        if Gen.C12.uploadFreshPacket then uploadLoopObj tid page address rest (i + 1) 0 (o.alloc d).2 (o.alloc d).1
+        else uploadLoopObj tid page address rest (i + 1) 0 pk (o.setData pk d)
+    else uploadLoopObj tid page address rest (i + 1) count pk o
+
+def uploadBufferObj (o : ObjLink) (tid : Int) (page address : Nat) (buff : List UInt8) : ObjLink × Except PyErr Unit :=
+  match loadData tid Gen.C12.uploadCmd page address with
+  | .error e => (o, .error e)
+  | .ok d =>
+    match uploadLoopObj tid page address buff 0 0 (o.alloc d).2 (o.alloc d).1 with
+    | (o1, .error e) => (o1, .error e)
+    | (o1, .ok pk) => (o1.send pk, .ok ())
+
 end CfVerif.C12
